@@ -1,4 +1,12 @@
 """Runs every translator (used by tools/setup.py); each check also runs its own through ctx.translate."""
+import os as _os
+import sys as _sys
+
+if _os.path.exists("/venv/bin/python") and _os.path.realpath(_sys.executable) != _os.path.realpath("/venv/bin/python") and not _os.environ.get("MXLVERIF_NO_REEXEC"):
+    # the repository's sources use Python 3.12 syntax; parse them with the interpreter that runs them
+    _os.environ["MXLVERIF_NO_REEXEC"] = "1"
+    _os.execv("/venv/bin/python", ["/venv/bin/python", *_sys.argv])
+
 import importlib
 import pkgutil
 import sys
